@@ -248,7 +248,28 @@ impl ByteCompiler<'_> {
             self.register_allocator.dealloc(value);
         }
 
+        let handler_index = self.push_handler();
         self.compile_stmt(for_in_loop.body(), use_expr, true);
+        {
+            let exit = self.jump();
+            self.patch_handler(handler_index);
+
+            // An abrupt completion leaves the loop: remove the for-in iterator from the
+            // iterator stack so that enclosing loops close their own iterators.
+            let error = self.register_allocator.alloc();
+            let has_exception = self.register_allocator.alloc();
+            self.bytecode
+                .emit_maybe_exception(has_exception.variable(), error.variable());
+            self.iterator_close(false);
+            let generator_return = self.jump_if_false(&has_exception);
+            self.register_allocator.dealloc(has_exception);
+            self.bytecode.emit_throw(error.variable());
+            self.register_allocator.dealloc(error);
+            self.patch_jump(generator_return);
+            self.bytecode.emit_re_throw();
+
+            self.patch_jump(exit);
+        }
         self.pop_declarative_scope(outer_scope);
 
         self.bytecode.emit_jump(start_address);
